@@ -119,6 +119,226 @@ func c03Targeted(r *hx.Result, rng *hx.Rng, thorough bool) error {
 	if err := c03DiscardReopen(r); err != nil {
 		return err
 	}
+	// T6: a torn write of an index commit entry over a stale entry (two crashes)
+	if err := c03TornIndexEntryOverStaleEntry(r); err != nil {
+		return err
+	}
+	// T7: a stale index commit entry past the rewound end validates again (two crashes, the second one a plain process kill)
+	if err := c03StaleIndexEntryRevalidates(r); err != nil {
+		return err
+	}
+	// T8: the TIMESTAMP file of an index is written by Close before the snapshot it describes is durable
+	if err := c03TsFileAheadOfSnapshot(r); err != nil {
+		return err
+	}
+	return nil
+}
+
+// T7.  Two indexes (prefixes key-0 / key-1).  Life 1, index key-0: S1 (tx 1 writes key-00), S2 (tx 2 updates key-00: history
+// record [tx 1]), S3 (tx 3 writes key-10 of the OTHER index: only the ts of this index moves, no history append), all un-fsynced;
+// crash 1 loses the history write: S2 does not validate, S3 (empty history range) does, recovery selects S1 and rewinds; the
+// entries of S2 and S3 and the leaf of S3 stay in the files.  Life 2: tx 2, tx 3 re-indexed, tx 4 updates key-00 again, snapshot
+// S2' (a leaf of the same size in the slot of S2's leaf, history record [tx 2, tx 1] at offset 0).  Crash 2 = process kill, every
+// written byte survives: the commit log reads S1, S2', S3(stale); S3 still validates (its leaf was not overwritten, its history
+// range is empty) and is the newest entry: OpenWith loads the root of life 1.
+func c03StaleIndexEntryRevalidates(r *hx.Result) error {
+	r.NextCase()
+	cfg := c03TargetCfg("target-index-stale-commit-entry-revalidates")
+	cfg.FixedVal, cfg.IdxBulk, cfg.KeySpace, cfg.MultiIdx = 8, 1, 30, true
+	cfg1 := cfg
+	cfg1.Script = func(s *c03Script) {
+		s.Commit(0, []byte("value-1"))
+		s.Flush(false)
+		s.Commit(0, []byte("value-2"))
+		s.Flush(false)
+		s.Commit(10, []byte("other-3"))
+		s.Flush(false)
+	}
+	run1, err := c03Workload(r, hx.NewRng(37), cfg1, nil, nil, nil, cfg.Name)
+	if err != nil {
+		return err
+	}
+	st1, acked1 := c03ReplayAll(run1)
+	pend := st1.Pending()
+	dir := c03IdxDirs(cfg)[0]
+	surv := map[string]crashfs.Surv{}
+	for n, p := range pend {
+		surv[n] = crashfs.Surv{Segs: len(p)}
+	}
+	delete(surv, dir+"/history")
+	img1 := st1.Image(surv, false)
+	o1 := c03Check(r, run1, img1, acked1, c03Point{K: len(run1.Log), Choice: dir + "/history loses its un-fsynced writes, everything else written survives"}, 0)
+	r.Count(fmt.Sprintf("targeted.index-stale-entry.crash-1.failed=%v", o1.Failed))
+	inherit := map[uint64]*c03Tx{}
+	for _, t := range acked1 {
+		inherit[t.ID] = t
+	}
+	cfg2 := cfg
+	cfg2.Script = func(s *c03Script) {
+		s.Commit(0, []byte("value-4"))
+		s.Flush(false)
+	}
+	lineage := cfg.Name + " -> crash@end[" + dir + "/history loses its un-fsynced writes] -> workload"
+	run2, err := c03Workload(r, hx.NewRng(41), cfg2, img1, inherit, run1.Universe, lineage)
+	if err != nil {
+		return err
+	}
+	st2, acked2 := c03ReplayAll(run2)
+	img2 := st2.Image(nil, true)
+	o2 := c03Check(r, run2, img2, acked2, c03Point{K: len(run2.Log), Choice: "all-survive (process kill)"}, 0)
+	r.Count("targeted.index-stale-entry")
+	r.Count(fmt.Sprintf("targeted.index-stale-entry.crash-2.failed=%v", o2.Failed))
+	if os.Getenv("VERIF_C03_DEBUG") == "t7" {
+		c03IndexDebug(run2, img2, o2)
+	}
+	return nil
+}
+
+// T8 (known finding 7).  tbtree.Close: `if t.root.tsMutated() { t.writeTsFile() }` (temp file, fsync, rename: durable at once) and
+// only THEN flushTree(sync).  The ts of a root is raised without an insertion (IncreaseTs) for every tx that has no entry for the
+// index (other indexes' keys, non-indexable entries).  A process kill between the two steps leaves TIMESTAMP = ts of the root in
+// memory next to an older snapshot; OpenWith raises the ts of the older root to the value of the file, the indexer resumes after
+// it, and the entries of the txs between the older snapshot and the file are never indexed.
+func c03TsFileAheadOfSnapshot(r *hx.Result) error {
+	r.NextCase()
+	cfg := c03TargetCfg("target-index-ts-file-ahead-of-snapshot")
+	cfg.FixedVal, cfg.IdxBulk, cfg.KeySpace, cfg.MultiIdx, cfg.CleanClose = 8, 1, 30, true, true
+	cfg.Script = func(s *c03Script) {
+		s.Commit(0, []byte("value-1"))
+		s.Flush(true)                   // snapshot S1 of index key-0, fsynced
+		s.Commit(1, []byte("value-2"))  // tx 2: key-01, in memory only
+		s.Commit(10, []byte("other-3")) // tx 3: other index; index key-0: IncreaseTs(3)
+	}
+	run, err := c03Workload(r, hx.NewRng(43), cfg, nil, nil, nil, cfg.Name)
+	if err != nil {
+		return err
+	}
+	state := crashfs.NewState(nil, true)
+	acked := map[uint64]*c03Tx{}
+	n := 0
+	for k := range run.Log {
+		op := run.Log[k]
+		if op.Kind == crashfs.KMark {
+			if op.Note == "ack" && run.Acked[op.Arg] != nil {
+				acked[op.Arg] = run.Acked[op.Arg]
+			}
+			continue
+		}
+		op.Auto = ""
+		state.Apply(&op)
+		// the first flush of the nodes log after the TIMESTAMP file of that index appeared: Close is between writeTsFile and the fsyncs
+		if op.Kind == crashfs.KFlush && c03IdxLogOf(op.File) == "nodes" && k >= 2 && n == 0 {
+			seen := false
+			for j := k - 1; j >= 0 && j > k-8; j-- {
+				if run.Log[j].Kind == crashfs.KSide && strings.HasPrefix(run.Log[j].File, strings.TrimSuffix(op.File, "/nodes")+"/TIMESTAMP") {
+					seen = true
+				}
+			}
+			if !seen {
+				continue
+			}
+			var al []*c03Tx
+			for _, t := range acked {
+				al = append(al, t)
+			}
+			o := c03Check(r, run, state.Image(nil, true), al, c03Point{K: k + 1, Choice: "all-survive (process kill inside Close, after the TIMESTAMP file was written)"}, 0)
+			r.Count(fmt.Sprintf("targeted.index-ts-file.failed=%v", o.Failed))
+			n++
+		}
+	}
+	r.CountN("targeted.index-ts-file", n)
+	return nil
+}
+
+// c03ReplayAll: the storage state after all ops of the run, and the txs acknowledged (inherited ones included)
+func c03ReplayAll(run *c03Run) (*crashfs.State, []*c03Tx) {
+	state := crashfs.NewState(run.Base, true)
+	for k := range run.Log {
+		op := run.Log[k]
+		if op.Kind == crashfs.KMark {
+			continue
+		}
+		op.Auto = ""
+		state.Apply(&op)
+	}
+	var acked []*c03Tx
+	for _, t := range run.Acked {
+		acked = append(acked, t)
+	}
+	return state, acked
+}
+
+// T6 (known finding 5).  The index commit log is rewound, never truncated, and an entry carries two independent checksums (nodes
+// range, history range) but none over itself and no link to its predecessor.  Life 1: snapshots S1 (tx 1) and S2 (tx 2, appends the
+// old version of the key to the history log), un-fsynced; crash 1 loses the node data of S2 but neither its commit entry nor its
+// history record: S2 does not validate, recovery selects S1, the entry of S2 and its history record stay in the files past the
+// logical ends.  Life 2: tx 2 is
+// re-indexed, tx 3 updates the key again, snapshot S2' is written into the slot of S2 (a DIFFERENT history record at the same
+// offset); crash 2 keeps the node data, loses the history write and TEARS the 100-byte commit entry after its nodes checksum:
+// the slot now holds [nodes range + checksum of S2'] ++ [history range + checksum of S2], both halves validate against what is
+// on disk, the snapshot is accepted with ts = 3, and the leaf of S2' (2 older versions at offset 0) reads the history record of S2.
+func c03TornIndexEntryOverStaleEntry(r *hx.Result) error {
+	r.NextCase()
+	cfg := c03TargetCfg("target-index-torn-commit-entry-over-stale-entry")
+	cfg.FixedVal, cfg.IdxBulk, cfg.KeySpace = 8, 1, 3
+	cfg1 := cfg
+	cfg1.Script = func(s *c03Script) {
+		s.Commit(0, []byte("value-1"))
+		s.Flush(false)
+		s.Commit(0, []byte("value-2"))
+		s.Flush(false)
+	}
+	run1, err := c03Workload(r, hx.NewRng(29), cfg1, nil, nil, nil, cfg.Name)
+	if err != nil {
+		return err
+	}
+	st1, acked1 := c03ReplayAll(run1)
+	pend := st1.Pending()
+	if len(pend["index/commit"]) < 2 || len(pend["index/nodes"]) < 2 {
+		r.Notes = append(r.Notes, fmt.Sprintf("%s: life 1 wrote %d un-fsynced index commit entries, 2 expected", cfg.Name, len(pend["index/commit"])))
+		return nil
+	}
+	surv := map[string]crashfs.Surv{}
+	for n, p := range pend {
+		surv[n] = crashfs.Surv{Segs: len(p)}
+	}
+	surv["index/nodes"] = crashfs.Surv{Segs: len(pend["index/nodes"]) - 1}
+	img1 := st1.Image(surv, false)
+	o1 := c03Check(r, run1, img1, acked1, c03Point{K: len(run1.Log), Choice: "index/nodes loses its last write, everything else written survives"}, 0)
+	r.Count(fmt.Sprintf("targeted.index-torn-splice.crash-1.failed=%v", o1.Failed))
+	inherit := map[uint64]*c03Tx{}
+	for _, t := range acked1 {
+		inherit[t.ID] = t
+	}
+	cfg2 := cfg
+	cfg2.Script = func(s *c03Script) {
+		s.Commit(0, []byte("value-3"))
+		s.Flush(false)
+	}
+	lineage := cfg.Name + " -> crash@end[index/nodes loses its last write] -> workload"
+	run2, err := c03Workload(r, hx.NewRng(31), cfg2, img1, inherit, run1.Universe, lineage)
+	if err != nil {
+		return err
+	}
+	st2, acked2 := c03ReplayAll(run2)
+	pend = st2.Pending()
+	if len(pend["index/commit"]) != 1 || pend["index/commit"][0] != c03IdxCLogEntry {
+		r.Notes = append(r.Notes, fmt.Sprintf("%s: life 2 wrote %v to the index commit log, one entry expected", cfg.Name, pend["index/commit"]))
+		return nil
+	}
+	surv = map[string]crashfs.Surv{}
+	for n, p := range pend {
+		surv[n] = crashfs.Surv{Segs: len(p)}
+	}
+	delete(surv, "index/history")
+	surv["index/commit"] = crashfs.Surv{Segs: 0, Torn: 8 + 8 + 4 + 32 + 4} // initialNLogSize, finalNLogSize, rootNodeSize, nLogChecksum, half of initialHLogSize
+	img2 := st2.Image(surv, false)
+	o2 := c03Check(r, run2, img2, acked2, c03Point{K: len(run2.Log), Choice: "index/commit entry torn after 56 bytes, index/history loses its un-fsynced writes, everything else written survives"}, 0)
+	r.Count("targeted.index-torn-splice")
+	if os.Getenv("VERIF_C03_DEBUG") == "t6" {
+		c03IndexDebug(run2, img2, o2)
+	}
+	r.Count(fmt.Sprintf("targeted.index-torn-splice.crash-2.failed=%v", o2.Failed))
 	return nil
 }
 
